@@ -358,6 +358,16 @@ def build_acc(a, heap=None):
     if k == "sib":
         return lena.structures.SplitIntoBins(lena.math.Sum(), lena.variables.Variable(a["var"], lambda x: x),
                                              list(range(a["lo"], a["hi"] + 1)))
+    if k == "mean_counts":
+        return lena.math.Mean(lena.core.Split([lena.math.Sum()] + [lena.flow.Count(n) for n in a["names"]]))
+    if k == "vec_multi":
+        inner = lena.math.Mean(lena.core.Split([lena.math.Sum()] + [lena.flow.Count("c%d" % j) for j in range(a["k"] - 1)]))
+        return lena.math.Vectorize(inner, dim=2)
+    if k == "sib_multi":
+        # k Sums per bin (a Count in a bin would write its counter into the last value filled into that bin)
+        inner = lena.core.Split([lena.math.Sum() for j in range(a["k"])])
+        return lena.structures.SplitIntoBins(inner, lena.variables.Variable(a["var"], lambda x: x),
+                                             list(range(a["lo"], a["hi"] + 1)))
     if k == "graph":
         if a.get("ctx") is not None:
             return lena.structures.Graph(context=heap[a["ctx"]])
@@ -569,17 +579,28 @@ def fill_counts(case):
     return [m + 1 if i <= j else m for i in range(len(case["branches"]))]
 
 
+def _make_split(case, branches):
+    """copy_buf=True is the default the property names: such cases are built without the keyword (and some
+    without bufsize, too, when it is the default 1000)"""
+    import lena.core
+    if case["copy_buf"] and case.get("nokw"):
+        if case["bufsize"] == 1000:
+            return lena.core.Split(branches)
+        return lena.core.Split(branches, bufsize=case["bufsize"])
+    return lena.core.Split(branches, bufsize=case["bufsize"], copy_buf=case["copy_buf"])
+
+
 def _drive(case, branches, flow, log):
     """run the Split/Zip of the case on `flow`; returns (outs, stopped)"""
     import lena.core
     import lena.flow
     mode = case["mode"]
     if mode == "run":
-        s = lena.core.Split(branches, bufsize=case["bufsize"], copy_buf=case["copy_buf"])
+        s = _make_split(case, branches)
         return list(s.run(iter(flow))), False
     stopped = False
     if mode == "fill":
-        s = lena.core.Split(branches, bufsize=case["bufsize"], copy_buf=case["copy_buf"])
+        s = _make_split(case, branches)
         for v in flow:
             try:
                 s.fill(v)
@@ -613,7 +634,7 @@ def _alone(case, i, nvals):
     br = build_branch(i, case["branches"][i], log)
     mode = case["mode"]
     if mode == "run":
-        outs = list(lena.core.Split([br], bufsize=case["bufsize"], copy_buf=case["copy_buf"]).run(iter(flow)))
+        outs = list(_make_split(case, [br]).run(iter(flow)))
     else:
         if isinstance(br, tuple):
             import lena.core.split
@@ -666,7 +687,9 @@ def run_split(case):
                 shared.append([i, j])
     res["per_yield"], res["per_end"], res["shared"], res["fills"] = per_yield, per_end, shared, fills
     if case["copy_buf"] and not case.get("aliased"):
-        counts = [len(flow)] * nb if case["mode"] == "run" else fill_counts(case)
+        # in fill mode a LenaStopFill of one branch ends the filling for all: every branch alone is given as
+        # many values as the probe at its head saw inside the Split/Zip
+        counts = [len(flow)] * nb if case["mode"] == "run" else [len(f) for f in fills]
         alone = []
         for i in range(nb):
             try:
@@ -698,9 +721,9 @@ def _acc_data(kind):
     def f(d):
         if kind == "vmc":
             return "vmc"
-        if kind in ("vectorize", "vec_list"):
+        if kind in ("vectorize", "vec_list", "vec_multi"):
             return "vec"
-        if kind in ("histogram", "sib"):
+        if kind in ("histogram", "sib", "sib_multi"):
             return "hist"
         if kind == "zip" and isinstance(d, tuple):
             return {"t": [elem(x) for x in d]}
@@ -718,6 +741,9 @@ def _deep_mutate(ctx, k=0):
         for v in ctx:
             _deep_mutate(v, k)
         ctx.append("__mut%d" % k)
+    elif isinstance(ctx, tuple):
+        for v in ctx:
+            _deep_mutate(v, k)
 
 
 def _plain(v):
@@ -748,9 +774,13 @@ def _exec_history(case, aggressive):
         if "reset" in op:
             acc.reset()
             continue
-        if "f" in op or "rf" in op:
+        if "f" in op or "rf" in op or "ff" in op:
             if "f" in op:
                 v = build_item(heap, op["f"])
+            elif "ff" in op:
+                if op["ff"] >= len(filled):
+                    continue
+                v = filled[op["ff"]]
             else:
                 # refilling a result is part of the correspondence run only (in the oracle runs the result was
                 # mutated on purpose, so refilling it would legitimately change the later results)
@@ -764,7 +794,7 @@ def _exec_history(case, aggressive):
                 continue
             filled.append(v)
         elif "c" in op or "r" in op:
-            meth = getattr(acc, "compute", None) or getattr(acc, "request")
+            meth = acc.request if "r" in op else (getattr(acc, "compute", None) or getattr(acc, "request"))
             snap_filled = None
             try:
                 ys = list(meth())
@@ -1044,6 +1074,11 @@ def gen_ctx(rng, i):
         return {"output": {"filename": "f"}}
     if r < 0.8:
         return {"upd": 5, "variable": {"name": "z"}}
+    if r < 0.87:
+        # what Zip produces: a tuple of dictionaries inside the context
+        return {"a": i, "zip": ({"pp": 1}, {"qq": [2]})}
+    if r < 0.92:
+        return {"lst": [{"u": i}, (3, {"w": [i]})]}
     return {"x": i}
 
 
@@ -1091,7 +1126,7 @@ def gen_split_case(rng, mode=None, aliased=None, copy_buf=None):
     copy_buf = (rng.random() < 0.85) if copy_buf is None else copy_buf
     bufsize = rng.choice([1, 2, 3, max(n, 1), n + 1, 1000, None])
     return {"op": "split", "mode": mode, "branches": branches, "bufsize": bufsize, "copy_buf": copy_buf,
-            "heap": heap, "flow": flow, "aliased": aliased}
+            "heap": heap, "flow": flow, "aliased": aliased, "nokw": rng.random() < 0.6}
 
 
 _SUM, _CNT = {"a": "sum"}, {"a": "count", "name": "n"}
@@ -1105,6 +1140,10 @@ ACC_KINDS = [
     {"a": "vectorize", "dim": 2}, {"a": "vec_list"}, {"a": "histogram"}, {"a": "sib", "var": "x", "lo": 0, "hi": 3},
     {"a": "graph"},
     {"a": "store"}, {"a": "store_group"}, {"a": "groupby", "key": "g"}, {"a": "keeplast"},
+    {"a": "reqsum"}, {"a": "reqstore"},
+    {"a": "mean_counts", "names": ["a", "b"]}, {"a": "mean_counts", "names": ["a", "b", "c"]},
+    {"a": "vec_multi", "k": 2}, {"a": "vec_multi", "k": 3}, {"a": "sib_multi", "var": "x", "lo": 0, "hi": 3, "k": 2},
+    {"a": "sib_multi", "var": "y", "lo": 1, "hi": 3, "k": 3},
     {"a": "zip", "subs": [_SUM, _CNT]}, {"a": "zip", "subs": [_SUM, _SUM]}, {"a": "zip", "subs": [_CNT, _MEAN, {"a": "histogram"}]},
     {"a": "zip", "subs": [_MEAN]}, {"a": "zip", "subs": [{"a": "reqsum"}, {"a": "reqsum"}]},
     {"a": "zip", "subs": [_SUM, _CNT], "fields": ["s", "c"]}, {"a": "graph", "ctx": 90},
@@ -1117,16 +1156,24 @@ REFILL_KINDS = ("sum", "dsum", "count", "store", "keeplast")
 
 
 def _acc_item(kind, i, c):
-    if kind in ("vectorize", "vec_list", "graph"):
+    if kind in ("vectorize", "vec_list", "graph", "vec_multi"):
         return {"d": {"t": [i, i + 1]}, "c": c}
     return {"d": i, "c": c}
 
 
 def _acc_ctx(rng, kind, i):
     ctx = gen_ctx(rng, i)
+    if kind == "zip" and "zip" in ctx:
+        # Zip on contexts that already have a "zip" entry raises TypeError in update_nested (tuple assignment);
+        # not a matter of aliasing
+        ctx = {"a": i}
     if kind == "groupby" and rng.random() < 0.8:
         ctx = dict(ctx, g=rng.randint(1, 2))
     return ctx
+
+
+def _is_request(acc):
+    return acc["a"] in ("reqsum", "reqstore") or (acc["a"] == "zip" and all(x["a"] == "reqsum" for x in acc["subs"]))
 
 
 def _can_reset(acc):
@@ -1146,14 +1193,23 @@ def gen_acc_case(rng, acc=None, nops=None):
         r = rng.random()
         if r < 0.45:
             c = None
-            if rng.random() < 0.85:
+            rr = rng.random()
+            if rr < 0.1 and nf and acc["a"] != "graph":
+                # the very same value object again
+                hist.append({"ff": rng.randint(0, nf - 1)})
+                nf += 1
+                continue
+            if rr < 0.2 and k:
+                # another value that shares its context object with an earlier one
+                c = rng.randint(0, k - 1)
+            elif rr < 0.87:
                 heap[str(k)] = enc(_acc_ctx(rng, kind, nf))
                 c = k
                 k += 1
-            hist.append({"f": _acc_item(kind, rng.randint(0, 4), c)})
+            hist.append({"f": _acc_item(kind, rng.randint(-1, 4) if kind in ("sib", "sib_multi") else rng.randint(0, 4), c)})
             nf += 1
         elif r < 0.78:
-            hist.append({"c": 1})
+            hist.append({"r": 1} if _is_request(acc) else {"c": 1})
             nc += 1
         elif r < 0.86 and nc:
             hist.append({"my": rng.randint(0, nc), "key": rng.choice(NAMES)})
@@ -1164,7 +1220,7 @@ def gen_acc_case(rng, acc=None, nops=None):
         elif nc and acc["a"] in REFILL_KINDS:
             hist.append({"rf": rng.randint(0, nc)})
         else:
-            hist.append({"c": 1})
+            hist.append({"r": 1} if _is_request(acc) else {"c": 1})
             nc += 1
     if acc.get("ctx") is not None:
         heap[str(acc["ctx"])] = enc({"init": {"i": 1}})
@@ -1182,7 +1238,7 @@ def enum_acc_histories(maxlen, with_reset):
             yield word
 
 
-def hist_of_word(kind, word):
+def hist_of_word(kind, word, request=False):
     heap, hist = {}, []
     k = nf = 0
     for w in word:
@@ -1198,7 +1254,7 @@ def hist_of_word(kind, word):
             hist.append({"f": _acc_item(kind, nf + 1, None)})
             nf += 1
         elif w == "c":
-            hist.append({"c": 1})
+            hist.append({"r": 1} if request else {"c": 1})
         elif w == "rs":
             hist.append({"reset": 1})
         elif w == "mf":
@@ -1219,7 +1275,7 @@ def gen_cases(ctx):
     for acc in ACC_KINDS + ORACLE_ONLY_KINDS:
         rs = _can_reset(acc)
         for word in enum_acc_histories(maxlen - 1 if (rs or acc in ORACLE_ONLY_KINDS) else maxlen, rs):
-            heap, hist = hist_of_word(acc_kind(acc), word)
+            heap, hist = hist_of_word(acc_kind(acc), word, _is_request(acc))
             if acc.get("ctx") is not None:
                 heap[str(acc["ctx"])] = enc({"init": {"i": 1}})
             yield {"op": "acc", "acc": acc, "heap": heap, "hist": hist, "may_raise": False}
@@ -1318,7 +1374,7 @@ def shrink(case):
         h = case["hist"]
         for i in range(len(h)):
             cand = h[:i] + h[i + 1:]
-            if any("c" in op for op in cand):
+            if any("c" in op or "r" in op for op in cand):
                 yield dict(case, hist=cand)
 
 
